@@ -611,6 +611,12 @@ def main():
             if ea and rng.random() < 0.3:                # the same segment in both groups
                 e = rng.choice(ea)
                 eb.insert(rng.randrange(len(eb) + 1), e if rng.random() < 0.5 else (e[1], e[0]))
+            if rng.random() < 0.5:
+                # slide both groups so that 0 (a falsy number) and negative values occur as top / bottom /
+                # interior latitudes and longitudes: the algorithm is translation invariant, the theorem holds on all of Z
+                ox, oy = rng.choice([0, -g, -(g // 2), -1]), rng.choice([-g, -(g // 2), -1, -g - 3])
+                ea = [((a[0] + ox, a[1] + oy), (b[0] + ox, b[1] + oy)) for a, b in ea]
+                eb = [((a[0] + ox, a[1] + oy), (b[0] + ox, b[1] + oy)) for a, b in eb]
         out = impl_sweep(ea, eb)
         m = {'k': 'sweep', 'ea': ea, 'eb': eb, 'out': out}
         add(f'KSweep {listlit([seglit(e) for e in ea])} {listlit([seglit(e) for e in eb])} {rlit(out)}', m)
